@@ -57,6 +57,8 @@ def run(ctx: Ctx):
     )
     res.rule("PERM-SPACE", "index-space typing of the matching permutation: congruence_coefficient returns, for each column of one argument, the matching column of the other (direction read from its source: rows / columns of the cross-product, order of linear_sum_assignment's result, dict(zip(...)) keys, enumeration); cp_permute_factors indexes the columns of the tensor to permute with a permutation whose values are column numbers of that same tensor and whose positions are the reference's components", floor=3)
     ctx.guarded(perm_space, ctx)
+    res.rule("CONJ-LIVE", "in the similarity metrics a conjugation is applied to an operand of the cross-product, never to the product directly under abs / norm (where it has no effect)", floor=1)
+    ctx.guarded(conj_live, ctx)
     ctx.guarded(
         run_units,
         ctx,
@@ -203,3 +205,32 @@ def perm_space(ctx: Ctx):
                         ctx.finding("PERM-SPACE", g, sub, f"`{src(sub)[:80]}` picks columns of the {('reference' if tf == 'REF' else 'tensor to permute')} with a permutation whose entries are column numbers of the {('reference' if val_f == 'REF' else 'tensor to permute')} (congruence_coefficient returns, for each column of its argument {idx_pos + 1}, the matching column of its argument {val_pos + 1}): the inverse matching is applied, which only coincides with the right one for self-inverse permutations", construct=f"cp_permute_factors: {src(sub)[:60]} uses a permutation into the other factor set")
     if n_uses == 0:
         raise AnalysisError("PERM-SPACE: the permutation is not used to index columns any more; cannot decide")
+
+
+# ---------------------------------------------------------------------------------
+# CONJ-LIVE: a conjugation that abs / norm swallows is a conjugation in the wrong place
+# ---------------------------------------------------------------------------------
+def conj_live(ctx: Ctx):
+    """|conj(z)| == |z|: a `conj` applied to the *result* of a product directly under `abs` /
+    `norm` has no effect.  The metrics are defined with X1^H X2 (conjugate ONE operand before the
+    product); conj(X1^T X2) conjugates both and, under abs, neither -- for complex factors the
+    metric is then |X1^T X2|."""
+    res = ctx.res
+    n = 0
+    for modname in ("tensorly.metrics.similarity", "tensorly.metrics.factors", "tensorly.metrics.regression"):
+        mod = ctx.repo.module(modname)
+        for f in [g for g in ctx.repo.functions.values() if g.module is mod]:
+            for c in own_scope_nodes(f.node):
+                if isinstance(c, ast.Call) and call_name(c) == "conj" and c.args:
+                    n += 1
+                    # the innermost enclosing call
+                    parent = None
+                    for p in own_scope_nodes(f.node):
+                        if isinstance(p, ast.Call) and any(a is c for a in p.args):
+                            parent = p
+                    dead = parent is not None and call_name(parent) in ("abs", "norm", "absolute") and isinstance(c.args[0], ast.Call) and call_name(c.args[0]) in ("dot", "matmul", "tensordot", "einsum", "inner")
+                    res.instance("CONJ-LIVE", f"{f.qname}: {src(c)[:60]}", sample={"line": c.lineno, "directly_under": call_name(parent) if parent is not None else None, "ok": not dead})
+                    if dead:
+                        ctx.finding("CONJ-LIVE", f, c, f"`{src(parent)[:90]}`: the conjugation is applied to the product and then swallowed by `{call_name(parent)}` (|conj(z)| == |z|), so no operand is conjugated: for complex factor matrices the metric uses X1^T X2 instead of X1^H X2 and is no longer 0 / 1 for equivalent factor sets", construct=f"{f.name}: conj of a product under {call_name(parent)}")
+    if n == 0:
+        raise AnalysisError("CONJ-LIVE: no conjugation left in the similarity metrics; cannot decide (the Hermitian cross-product X1^H X2 needs one)")
